@@ -660,6 +660,23 @@ func (g *G) DDL() Frag {
 		return cat(k("CREATE SEQUENCE"), g.ifNotExists("create-sequence"), g.path("create-sequence.name", 1, 2), g.seqParams("create-sequence.params", 0), g.optOptions("create-sequence"))
 	case "alter-sequence":
 		f := cat(k("ALTER SEQUENCE"), g.path("alter-sequence.name", 1, 2))
+		if g.Relaxed && g.flip("alter-sequence.relaxed-multi") {
+			// several clauses in one statement, in any order
+			n := g.count("alter-sequence.relaxed.n", 2, 3)
+			for i := 0; i < n; i++ {
+				switch g.choose("alter-sequence.relaxed", "set-options", "skip-range", "no-skip-range", "restart") {
+				case "skip-range":
+					f = cat(f, k("SKIP RANGE"), g.intLit(), p(","), g.intLit())
+				case "no-skip-range":
+					f = cat(f, k("NO SKIP RANGE"))
+				case "restart":
+					f = cat(f, k("RESTART COUNTER WITH"), g.intLit())
+				default:
+					f = cat(f, k("SET"), g.options("alter-sequence"))
+				}
+			}
+			return f
+		}
 		switch g.choose("alter-sequence", "set-options", "skip-range", "no-skip-range", "restart") {
 		case "skip-range":
 			return cat(f, k("SKIP RANGE"), g.intLit(), p(","), g.intLit())
